@@ -134,7 +134,11 @@ def _exec(ctx, case, tmp):
             r = tree.to_swc(fname, **kw)
             if r is not None:
                 return ctx.violation("write-api", f"{what}: to_swc(fname) returned {type(r)}", case)
-            t2 = Tree.from_swc(fname)
+            if w_i % 2:  # the integer file-descriptor form of a file source
+                t2 = Tree.from_swc(os.open(fname, os.O_RDONLY))
+                ctx.count("src_file_descriptor")
+            else:
+                t2 = Tree.from_swc(fname)
             df, cm = su.read_swc(fname)
             log = audit.stop()
             opens = [p for p, _ in log if p == os.path.realpath(fname)]
